@@ -1,5 +1,5 @@
 """Stand-in for the python-sgio C extension (absent from the sandbox), implementing exactly the contract
-DESIGN.md §6 assumes: execute() returns normally iff the device reported GOOD, raises
+DESIGN.md §6 assumes: execute() returns normally (with the residual count of the transfer) iff the device reported GOOD, raises
 CheckConditionError(sense) on CHECK CONDITION and another exception for any other outcome.
 The harness scripts the outcomes through SCRIPT and reads what was sent from LOG."""
 
@@ -28,9 +28,10 @@ def execute(fileobj, cdb, data_out, data_in, max_sense_data_length=32, return_se
     if outcome[0] == "good":
         return 0
     if outcome[0] == "fill":
+        # a device may transfer fewer bytes than were allocated: the binding reports the residual count
         n = min(len(outcome[1]), len(data_in))
         data_in[0:n] = outcome[1][0:n]
-        return 0
+        return len(data_in) - n
     if outcome[0] == "cc":
         raise CheckConditionError(bytes(outcome[1]))
     if outcome[0] == "raise":
